@@ -6,6 +6,7 @@ import (
 	"go/token"
 	"os"
 	"path/filepath"
+	"reflect"
 	"sort"
 	"strings"
 	"time"
@@ -44,7 +45,19 @@ type KnownFinding struct {
 }
 
 // Ctx collects the obligations of one property check over one loaded program.
+type borrowKey struct {
+	p  *Prog
+	fn uintptr
+}
+
+// borrowMemo keeps the result of running a neighbour property once per loaded program.
+var borrowMemo = map[borrowKey]*Ctx{}
+
+// Depth is 0 for the property being checked and 1 for a property run on behalf of a borrower.
+func (c *Ctx) Depth() int { return c.depth }
+
 type Ctx struct {
+	depth int
 	*Prog
 	Property    string
 	Tier        string
@@ -371,15 +384,26 @@ type Explanation struct {
 // property is reported by every property for which it is a necessary condition.
 // Floors and exceptions declared by the borrowed rules are discarded.
 func (c *Ctx) Borrow(to string, from func(*Ctx), match func(o Obligation) bool) (kept int) {
-	sub := NewCtx(c.Prog, c.Property, c.Tier)
-	func() {
-		defer func() {
-			if r := recover(); r != nil {
-				sub.Und("engine", "panic in borrowed rules", 0, "%v", r)
-			}
+	// A property that is itself being run for a borrower does not borrow in turn: the borrower selects
+	// obligations by the neighbour's own rule ids, and mutual borrowing would never end.
+	if c.depth > 0 {
+		return 0
+	}
+	key := reflect.ValueOf(from).Pointer()
+	sub := borrowMemo[borrowKey{c.Prog, key}]
+	if sub == nil {
+		sub = NewCtx(c.Prog, c.Property, c.Tier)
+		sub.depth = c.depth + 1
+		func() {
+			defer func() {
+				if r := recover(); r != nil {
+					sub.Und("engine", "panic in borrowed rules", 0, "%v", r)
+				}
+			}()
+			from(sub)
 		}()
-		from(sub)
-	}()
+		borrowMemo[borrowKey{c.Prog, key}] = sub
+	}
 	for _, o := range sub.Obls {
 		if o.Status == Info || !match(o) {
 			continue
